@@ -102,9 +102,15 @@ def check_name(j, v, viol, tag):
     b = bytes(n.bytes)
     if b != C.name_bytes(want):
         viol.add('name_bytes', 'Name(value=%016X).bytes == %s, reference %s' % (v, b.hex(), C.name_bytes(want).hex()), **tag)
-    n2 = j.Name(bytes=list(C.name_bytes(v)))
+    buf = list(C.name_bytes(v))
+    n2 = j.Name(bytes=buf)
     if n2.value != want:
         viol.add('name_from_bytes', 'Name(bytes=%s).value == %016X, reference %016X' % (C.name_bytes(v).hex(), n2.value, want), **tag)
+    # decoding must not touch the caller's buffer (the same received data is decoded again, e.g. by the next CA of the stack) ...
+    if buf != list(C.name_bytes(v)):
+        viol.add('name_from_bytes', 'Name(bytes=buf) changed the caller\'s buffer from %s to %s' % (C.name_bytes(v).hex(), bytes(buf).hex()), how='buffer_modified', **tag)
+    elif j.Name(bytes=buf).value != want or j.Name(bytes=bytearray(C.name_bytes(v))).value != want:
+        viol.add('name_from_bytes', 'decoding the same buffer %s a second time / as a bytearray gives another NAME' % C.name_bytes(v).hex(), how='second_decode', **tag)
     kw = {k: val for k, val in f.items() if k != 'reserved_bit'}
     n3 = j.Name(**kw)
     if n3.value != want:
